@@ -41,7 +41,7 @@ func (r *Run) recordedTokens(v interface{}) interface{} {
 	switch x := v.(type) {
 	case string:
 		if strings.HasPrefix(x, r.PsDir+"/") {
-			if rec := r.Files[x]; rec != nil {
+			if rec := r.fileRec(x); rec != nil {
 				return "FILE:" + rec.Content
 			}
 			return "UNKNOWN-FILE:" + path.Base(x)
@@ -81,7 +81,7 @@ func vdrCase(c *Ctx, focus string) {
 	}
 	mode := []string{"rolling", "post", "strict"}[c.Plan.Draw(3)]
 	cfg := &RunCfg{Prog: prog, FCfg: &FCfg{MaxLen: 1 + c.Plan.Draw(3), MaxChunks: c.Plan.Draw(4), Salt: "vdr"},
-		MaxSteps: 80000, ExtraFiles: true}
+		MaxSteps: 80000, ExtraFiles: true, LinkDirs: c.Plan.Draw(3) == 0, Companions: c.Plan.Draw(2) == 0}
 	cfg.Flags = append(baseFlags(c.Plan), "--vdrmode="+mode)
 	swarmSched(c.Plan, cfg)
 	// the detached cleanup goroutines are "aux" tasks: vary their priority strongly
@@ -189,7 +189,7 @@ func vdrCase(c *Ctx, focus string) {
 			b, err := os.ReadFile(p)
 			if err != nil {
 				add("C04", "retained-file-removed", "file named by a retained output is gone: "+strings.TrimPrefix(p, r.PsDir+"/"))
-			} else if rec := r.Files[p]; rec != nil && rec.Content != string(b) {
+			} else if rec := r.fileRec(p); rec != nil && rec.Content != string(b) {
 				add("C04", "retained-file-changed", strings.TrimPrefix(p, r.PsDir+"/"))
 			}
 		}
@@ -246,7 +246,7 @@ func vdrCase(c *Ctx, focus string) {
 			continue
 		}
 		c.Res.Probes["volatile-files"]++
-		keep := named[p] || retained[p]
+		keep := named[p] || retained[p] || (rec.Logical != "" && (named[rec.Logical] || retained[rec.Logical]))
 		if !keep && exists(p) {
 			add("C14", "volatile-file-left", fmt.Sprintf("file of volatile stage %s survives completion although neither a top-level output nor a retain names it: %s", in.Index, rel))
 		}
